@@ -29,7 +29,7 @@ ANCHORS = [
 ]
 VK = ["scalar", "flat", "flatlist", "colvec", "collist", "ragged", "bad_same_total", "bad_total", "bad_rows", "bad_onerow"]
 FLOOR_TAGS = ["vk:" + v for v in VK] + ["mask:scalar", "mask:flat", "r:int", "r:slice+1", "r:slice+k", "r:slice-", "r:list", "r:mask", "r:ell",
-                                        "recv:fresh", "recv:lazyrows", "recv:lazycols+2", "recv:lazycols-1", "recv:lazychain", "recv:deepcopy", "recv:pickle", "values:hostile-floats", "valdtype:other", "valdtype:exotic", "ellipsis-padded",
+                                        "recv:fresh", "recv:lazyrows", "recv:lazycols+2", "recv:lazycols-1", "recv:lazychain", "recv:deepcopy", "recv:pickle", "values:hostile-floats", "valdtype:other", "valdtype:exotic", "ellipsis-padded", "seq", "seq:50+",
                                         "c:none", "c:int+", "c:int-", "c:slice+1", "c:slice+k", "c:slice-", "sel-has-empty-row", "e-first", "e-last", "e-mid", "allempty", "norows"]
 FLOOR_MONITORS = ["c03:footprint", "c03:must-refuse", "c03:bystander", "c03:alias", "c03:parent-untouched"]
 N_RANDOM = {"quick": 24000, "thorough": 300000}
@@ -91,7 +91,79 @@ def bad_rows_of(sel_lens, how):
     return L
 
 
+def run_seq(case):
+    """many assignments in a row on one and the same array: the list model is updated alongside and compared after every step
+    (an error that builds up over repeated writes, or state left behind by one write, shows at the step where it becomes visible)"""
+    RA = CTX.lib.RaggedArray
+    lens = case["lens"]
+    dt = np.dtype(case.get("dtype", "int64"))
+    recv = case.get("recv", "fresh")
+    pyrows = gen.id_rows(lens)
+    flat = np.array([v for r in pyrows for v in r], dtype=dt)
+    ra, parent = c02.build_receiver(recv, flat, lens)
+    parent_before = peek(parent) if parent is not None else None
+    exp = [list(r) for r in pyrows]
+    tags = ["seq", "recv:" + recv, "seq:%d+" % (10 * (len(case["steps"]) // 10))] + gen.empty_placement(lens)
+    for si, st in enumerate(case["steps"]):
+        rs, cs, has_cs, vk = st["rs"], st["cs"], st["has_cs"], st["vk"]
+        kind, cells = model.select_cells(lens, rs, cs, has_cs)
+        flatcells = model.flat_cells(kind, cells)
+        base = BASE * (si + 2)
+        if vk == "scalar":
+            value = base
+            for (i, j) in flatcells:
+                exp[i][j] = base
+        elif vk == "flat":
+            vals = [base + k for k in range(len(flatcells))]
+            value = np.array(vals, dtype=dt)
+            for k, (i, j) in enumerate(flatcells):
+                exp[i][j] = vals[k]
+        elif vk == "colvec":
+            col = [base + k for k in range(len(cells))]
+            value = np.array(col, dtype=dt).reshape(len(cells), 1)
+            for k, r in enumerate(cells):
+                for (i, j) in r:
+                    exp[i][j] = col[k]
+        else:
+            vals = [base + k for k in range(len(flatcells))]
+            value = RA(np.array(vals, dtype=dt), [len(r) for r in cells])
+            for k, (i, j) in enumerate(flatcells):
+                exp[i][j] = vals[k]
+        idx = model.make_index(rs, cs, has_cs)
+        CTX.tick("c03:footprint", len(flatcells) > 0)
+        out = attempt(lambda: ra.__setitem__(idx, value))
+        if not out.ok:
+            return violated("assignment %d of a sequence, ra[%s] = %s on rows of lengths %s, raised %s: %s" % (si, short(idx), short(value), lens, type(out.exc).__name__, out.exc), tags)
+        after = attempt(peek, ra)
+        if not after.ok or not lists_same(after.value, exp):
+            return violated("after %d assignments in a row (last: ra[%s] = %s) the array reads %s, expected %s; steps %s" % (
+                si + 1, short(idx), short(value), repr(after) if not after.ok else short(after.value, 240), short(exp, 240), short(case["steps"][:si + 1], 300)), tags + ["seq-diverged"], got=after.value if after.ok else None, expected=exp)
+    if parent is not None and peek(parent) != parent_before:
+        return violated("a sequence of assignments into a selection (%s) changed the array it was selected from" % recv, tags + ["parent-changed"])
+    if len(ra) != len(lens) or np.asarray(ra.lengths).tolist() != list(lens):
+        return violated("row structure changed by a sequence of assignments: lengths %s -> %s" % (lens, np.asarray(ra.lengths).tolist()), tags)
+    return held(tags, len(lens) >= 2 and sum(lens) > 0)
+
+
+def gen_seq(rng, tier, nsteps=None):
+    lens, _ = gen.length_vector(rng, tier)
+    n = len(lens)
+    steps = []
+    nsteps = nsteps or rng.choice([5, 12, 50, 60])
+    for _ in range(nsteps * 3):
+        if len(steps) >= nsteps:
+            break
+        c = random_case(rng, tier, lens=lens, plain=True)
+        if c is None or "mask" in c or c["vk"] not in ("scalar", "flat", "colvec", "ragged"):
+            continue
+        steps.append({"rs": c["rs"], "cs": c["cs"], "has_cs": c["has_cs"], "vk": c["vk"]})
+    return {"seq": True, "lens": lens, "dtype": rng.choice(["int64", "int64", "float64", "int32"]), "steps": steps,
+            "recv": rng.choice(["fresh", "fresh", "lazyrows", "lazycols+2", "lazychain", "ufunc", "pickle", "saveload"])}
+
+
 def run(case):
+    if "seq" in case:
+        return run_seq(case)
     if "mask" in case:
         return run_mask(case)
     lib = CTX.lib
@@ -280,6 +352,10 @@ def directed():
                 yield dict(c, dtype="float64", hostile=True)
                 yield dict(c, dtype="float32", hostile=True, recv=c02.RECVS[1 + (k + 1) % 4])
     # more than 100000 selected rows, with gaps and empty rows among them (any chunked index construction must agree with the plain one)
+    import random
+    rng = random.Random(303)
+    for k in range(40):
+        yield gen_seq(rng, "quick", nsteps=[5, 12, 50, 60][k % 4])
     hl = [(i * 7) % 3 for i in range(130001)]
     yield mk_case(hl, slice(None, None, 2), None, False, "scalar")
     yield mk_case(hl, slice(3, None, 1), slice(None, None, -1), True, "colvec")
@@ -337,11 +413,14 @@ def sweep(tier):
                         yield mk_case(lens, list(range(n)), cs, True, "ragged")
 
 
-def random_case(rng, tier):
-    lens, _ = gen.length_vector(rng, tier)
+def random_case(rng, tier, lens=None, plain=False):
+    if not plain and rng.random() < 0.03:
+        return gen_seq(rng, tier)
+    if lens is None:
+        lens, _ = gen.length_vector(rng, tier)
     n = len(lens)
     dtype = rng.choice(["int64", "int64", "int32", "float64", "float64", "float32"])
-    if rng.random() < 0.12:
+    if not plain and rng.random() < 0.12:
         p = rng.choice([0.0, 0.3, 0.6, 1.0])
         return mk_mask_case(lens, [rng.random() < p for _ in range(sum(lens))], rng.choice(["scalar", "flat"]), dtype)
     for _ in range(20):
@@ -380,6 +459,8 @@ def random_case(rng, tier):
 
 
 def classify(case, res):
+    if "seq" in case:
+        return None
     if "mask" in case:
         return None
     return c02.classify(case, res)
